@@ -19,12 +19,22 @@ def segments_from_model(model_summary, thread_names):
     return segs
 
 
-def instrument_queue(src, out):
+def instrument_queue(src, out, summary=False):
+    """scratch copy of lock_free_queue.go with a scheduling point in front of every atomic operation. summary=True (the
+    configurations whose schedule formula uses the C13-justified atomic queue summary): one scheduling point at the
+    entry of Enqueue/Dequeue (the abstract link/unlink step) and one at the length update, none inside the operation,
+    so that the native run has exactly the step structure of the model."""
     s = open(src).read()
     n = 0
-    for a, b in (("func load(p *unsafe.Pointer) (n *node) {", "func load(p *unsafe.Pointer) (n *node) {\n\tvrt.Sched()"),
+    if summary:
+        pairs = (("func (q *lockFreeQueue) Enqueue(task *Task) {", "func (q *lockFreeQueue) Enqueue(task *Task) {\n\tvrt.Sched()"),
+                 ("func (q *lockFreeQueue) Dequeue() *Task {", "func (q *lockFreeQueue) Dequeue() *Task {\n\tvrt.Sched()"),
+                 ("atomic.AddInt32(", "vAtomicAddInt32("), ("atomic.LoadInt32(", "vAtomicLoadInt32("))
+    else:
+        pairs = (("func load(p *unsafe.Pointer) (n *node) {", "func load(p *unsafe.Pointer) (n *node) {\n\tvrt.Sched()"),
                  ("func cas(p *unsafe.Pointer, old, new *node) bool { //nolint:revive", "func cas(p *unsafe.Pointer, old, new *node) bool { //nolint:revive\n\tvrt.Sched()"),
-                 ("atomic.AddInt32(", "vAtomicAddInt32("), ("atomic.LoadInt32(", "vAtomicLoadInt32(")):
+                 ("atomic.AddInt32(", "vAtomicAddInt32("), ("atomic.LoadInt32(", "vAtomicLoadInt32("))
+    for a, b in pairs:
         n += s.count(a)
         s = s.replace(a, b)
     if n < 3:
@@ -282,7 +292,7 @@ def replay_netpoll(prop, unit, cfgc, violation, tape_path):
     pkgdir = os.path.join(R.REPO, unit["pkgdir"])
     qdir = os.path.join(R.REPO, "pkg/queue")
     inst = os.path.join(wd, "rw_lock_free_queue_instrumented.go")
-    instrument_queue(os.path.join(qdir, "lock_free_queue.go"), inst)
+    instrument_queue(os.path.join(qdir, "lock_free_queue.go"), inst, summary=bool(cfgc.get("queue_summary")))
     ov[os.path.join(qdir, "lock_free_queue.go")] = inst
     qn = os.path.join(wd, "zz_vconc_queue_native.go")
     open(qn, "w").write(QUEUE_DEP_NATIVE)
